@@ -9,6 +9,8 @@ COND_BIT = {'Zero': ('Z', 1), 'NonZero': ('Z', 0), 'Carry': ('C', 1), 'NoCarry':
 
 def canon_op(opv):
     """decoded Op aggregate -> (variant, [args]) with enum args as names and ints as terms"""
+    if opv is None or opv[0] != 'agg' or not isinstance(opv[1], tuple) or len(opv[1]) < 4:
+        raise absint.Abort('decode() does not yield an Op value the analysis can read (%s)' % (fmt(opv)[:80] if opv else None))
     kind = opv[1]
     args = []
     for f in opv[2]:
@@ -439,11 +441,34 @@ def fetch_window_min(ctx, chk, prog):
     rs = ip2.run('interpreter::run_next_op', [regs, S(0, 'mem')], st)
     win_min = None
     ndec = 0
+    win_bad = None
+    nwin = 0
+    PCs = S(32, 'regs.ip', ('field', 'cpu::Registers', 'ip', 'u32'))
     for r in rs:
         for e in r.state.events:
             if e[0] == 'call' and e[1] == 'decoder::decode':
                 ndec += 1
                 a = e[2][0]
+                # a window assembled through the bus (instruction straddling the end of a fetch region): byte i of what
+                # the decoder sees must be the bus byte at PC + i, for every byte of the window
+                if a[0] == 'slice' and a[1][0] == 'L':
+                    arr = r.state.mem.get(a[1])
+                    n_ = r.state.env.const_of(a[4])
+                    reads = [c for c in r.state.events if c[0] == 'call' and c[1] == 'mem::memory_read_byte']
+                    if arr is not None and arr[0] == 'agg' and n_ is not None:
+                        nwin += 1
+                        from .. import bvproof as _bp
+                        for i_ in range(n_):
+                            el = arr[2][i_] if i_ < len(arr[2]) else None
+                            src = [c for c in reads if c[3] == el]
+                            want_a = O(16, 'add', O(16, 'trunc', PCs), C(16, i_))
+                            if not src:
+                                win_bad = win_bad or ('byte %d of the window handed to decode() is %s, not a byte read through the '
+                                                      'bus' % (i_, fmt(el)[:40] if el is not None else None))
+                            elif not (src[0][2][1] == want_a or equal_mod(src[0][2][1], want_a, r.state.env, 16) or
+                                      _bp.equal_under(src[0][2][1], want_a, r.state.env, 16) is True):
+                                win_bad = win_bad or 'byte %d of the window is read from %s, expected PC + %d' % (
+                                    i_, fmt(src[0][2][1])[:60], i_)
                 if a[0] == 'slice':
                     lo = r.state.env.av(a[4]).lo
                 elif a[0] == 's' or (a[0] == 'ref' and a[1][0] == 'O' and not a[2]):
@@ -456,6 +481,15 @@ def fetch_window_min(ctx, chk, prog):
     if not ndec:
         chk.error('run_next_op does not call decoder::decode (anchor lost)')
         return 1
+    chk.rules['C06.9']['instances'] += 1
+    if win_bad:
+        chk.fail('C06.9', 'window-contents', 'run_next_op: %s' % win_bad, 'src/interpreter/mod.rs', None)
+        chk.rules['C06.9']['instances'] -= 1
+    elif nwin:
+        chk.ok('C06.9', 'window-contents', sample={'bus-assembled windows': nwin, 'byte i': 'memory_read_byte(PC + i)'})
+        chk.rules['C06.9']['instances'] -= 1
+    else:
+        chk.rules['C06.9']['instances'] -= 1
     eff = max(win_min, 0)
     chk.info('get_executable_memory_slice returns slices cut at region ends (shortest provable lower bound %d byte(s)); '
              'run_next_op passes decode() a slice of at least %d byte(s)' % (fetch_min, eff))
